@@ -46,7 +46,14 @@ def option_sets(backend):
                     {"match": ["style", "download"], "arg_name": "range", "arg_type": "string",
                      "arg_docstring": "A byte range."}), '-e', json.dumps(
                     {"match": ["host", "content"], "arg_name": "hint", "arg_type": "string",
-                     "arg_docstring": "A routing hint."})], {})]
+                     "arg_docstring": "A routing hint."})], {}),
+                # the same with the attributes named one by one instead of :all
+                ('extra-attrs', ['-a', 'style', '-a', 'host', '-a', 'auth'], ['types.js'] + [
+                    x for m, n in ((["style", "upload"], "contents"), (["style", "download"], "range"),
+                                   (["host", "content"], "hint"), (["host", "api"], "api_hint"),
+                                   (["auth", "user"], "token"))
+                    for x in ('-e', json.dumps({"match": m, "arg_name": n, "arg_type": "string",
+                                                "arg_docstring": "Extra."}))], {})]
     if backend == 'js_client':
         return [('plain', [], ['routes.js'], {}),
                 ('opts', ['-a', ':all'], ['routes.js', '-c', 'Box', '--wrap-response-in', 'Resp',
@@ -57,7 +64,13 @@ def option_sets(backend):
     if backend == 'tsd_types':
         return [('plain', [], ['tmpl.d.ts', 'out.d.ts'], {'tmpl.d.ts': TSD_TEMPLATE}),
                 ('opts', [], ['tmpl.d.ts', '-i', '1', '-s', '4', '-p', 'Mod', '--export-namespaces',
-                              '--exclude_error_types'], {'tmpl.d.ts': TSD_TEMPLATE})]
+                              '--exclude_error_types'], {'tmpl.d.ts': TSD_TEMPLATE}),
+                ('extra-attrs', ['-a', 'style', '-a', 'host', '-a', 'auth'], ['tmpl.d.ts', 'out.d.ts'] + [
+                    x for m, n in ((["style", "upload"], "contents"), (["style", "download"], "range"),
+                                   (["host", "content"], "hint"), (["host", "api"], "api_hint"),
+                                   (["auth", "user"], "token"))
+                    for x in ('-e', json.dumps({"match": m, "arg_name": n, "arg_type": "string",
+                                                "arg_docstring": "Extra."}))], {'tmpl.d.ts': TSD_TEMPLATE})]
     if backend == 'tsd_client':
         return [('plain', [], ['tmpl.d.ts', 'client.d.ts'], {'tmpl.d.ts': TSD_TEMPLATE}),
                 ('opts', ['-a', ':all'], ['tmpl.d.ts', 'client.d.ts', '-i', '2', '-s', '2',
